@@ -17,6 +17,7 @@ import (
 	"verif/adapt"
 	"verif/fw"
 	"verif/gen"
+	"verif/ref"
 )
 
 // C18 — searching is deterministic and never touches the engine's own game.
@@ -170,6 +171,41 @@ func streamDiff(a, b []searchResult, nodes bool) string {
 	return ""
 }
 
+// detour extends a history by four reversible plies that return to the same position (same key).
+func detour(r *rand.Rand, h gen.Hist) (gen.Hist, bool) {
+	p := h.Final()
+	key := p.Key()
+	for try := 0; try < 20; try++ {
+		var ms []ref.Move
+		q := p
+		okSeq := true
+		for k := 0; k < 4 && okSeq; k++ {
+			lm := q.LegalMoves()
+			var cand []ref.Move
+			for _, m := range lm {
+				if m.Kind != ref.KNormal || m.Piece == ref.King || m.Piece == ref.Rook {
+					continue
+				}
+				if k >= 2 && !(m.From == ms[k-2].To && m.To == ms[k-2].From) {
+					continue
+				}
+				cand = append(cand, m)
+			}
+			if len(cand) == 0 {
+				okSeq = false
+				break
+			}
+			m := cand[r.Intn(len(cand))]
+			ms = append(ms, m)
+			q = q.Apply(m)
+		}
+		if okSeq && q.Key() == key {
+			return gen.Hist{Start: h.Start, Moves: append(append([]ref.Move{}, h.Moves...), ms...)}, true
+		}
+	}
+	return h, false
+}
+
 func c18Root(r *rand.Rand, i int) (gen.Hist, int) {
 	root := searchCorpus(r, i)
 	b, ok := boardOf(root.h)
@@ -266,6 +302,20 @@ func runC18(c *fw.Ctx, cs fw.Case) {
 				if err1 == nil && err2 == nil {
 					if d := streamDiff(first, second, true); d != "" {
 						c.Violate("determinism:table-carried-over", "same analysis on the same engine after a reset differs (hash table on): %s: %s", d, what)
+					}
+				}
+			}
+			// the same position reached through a longer history (pieces stepped out and back), analysed on the
+			// engine that has just analysed the shorter one: must equal a fresh engine's analysis of the longer game
+			if h2, ok := detour(r, h); ok {
+				se := rc.newEngine(ctx, engine.Options{Depth: uint(depth)}, 0, nil)
+				analyze(ctx, se, h, depth)
+				onUsed, _, err1 := analyze(ctx, se, h2, depth)
+				onFresh, _, err2 := analyze(ctx, rc.newEngine(ctx, engine.Options{Depth: uint(depth)}, 0, nil), h2, depth)
+				c.Count("same_position_other_history_checks", 1)
+				if err1 == nil && err2 == nil {
+					if d := streamDiff(onFresh, onUsed, true); d != "" {
+						c.Violate("determinism:history-cache", "analysis of a game differs between a fresh engine and one that had just analysed the same position reached by a shorter history: %s: engine %s depth %d %s", d, rc.name, depth, histDesc(h2))
 					}
 				}
 			}
